@@ -157,7 +157,8 @@ def cfg_value_choices(kid, rng, counter):
     counter[kid] = counter.get(kid, 0) + 1
     c = counter[kid]
     if key == "emodulus lut":
-        return 1 + c % 3
+        # the 2D LUTs cost ~0.25 s per evaluation, the 3D one 0.03 s
+        return 3 if rng.random() < 0.6 else 1 + c % 2
     zero = counter.get("zero", False)
     if key == "emodulus medium":
         r = rng.random()
@@ -936,89 +937,113 @@ def documented_scenario(cfg, has_temp):
     return 0
 
 
+_REF_MEMO = {}
+
+
+def _table_row(row):
+    """one row of the emodulus table on the implementation; returns
+    (impl codes, case, oracle failure or None, notes)"""
+    import numpy as np
+    import dclab
+    from dclab.rtdc_dataset.feat_anc_core import AncillaryFeature
+    warnings.simplefilter("ignore")
+    (lut, med, tmp, visc, vm, has_temp, var) = row
+    K = emod_keys()
+    notes = []
+    medv = var["medv"]
+    data = {"area_um": innate_data("area_um"),
+            "deform": innate_data("deform")}
+    if has_temp:
+        data["temp"] = innate_data("temp")
+    cfg = {K["pixel size"]: 1, K["flow rate"]: 1, K["channel width"]: 1}
+    if lut:
+        cfg[K["emodulus lut"]] = var["lut"]
+    if med:
+        cfg[K["emodulus medium"]] = medv
+    if tmp:
+        cfg[K["emodulus temperature"]] = var["tid"]
+    if visc:
+        cfg[K["emodulus viscosity"]] = var["vid"]
+    if vm:
+        cfg[K["emodulus viscosity model"]] = var["vmid"]
+    ds = dclab.new_dataset(data)
+    for k, v in cfg.items():
+        sec, key = ID_K[k]
+        ds.config[sec][key] = cfg_value(k, v)
+    listed = "emodulus" in ds
+    rec = AncillaryFeature.available_features(ds).get("emodulus")
+    scen_sel = {"case A": 1, "case B": 2, "case C": 3}.get(
+        getattr(rec, "data", None), 0)
+    code, val = try_read(ds, "emodulus")
+    taken = 0
+    if code == 0:
+        cand = {}
+        full = dict(cfg)
+        full.setdefault(K["emodulus lut"], var["lut"])
+        full.setdefault(K["emodulus viscosity"], var["vid"])
+        full.setdefault(K["emodulus temperature"], var["tid"])
+        scens = [2] if medv in OTHER_MEDIUM_IDS else [1, 2, 3]
+        full.setdefault(K["emodulus medium"], medv)
+        for sc in scens:
+            memo = (sc, var["name"], bool(vm) if sc != 2 else None)
+            if memo not in _REF_MEMO:
+                try:
+                    _REF_MEMO[memo] = np.array(emod_reference(
+                        sc, data["area_um"], data["deform"], full,
+                        innate_data("temp")))
+                except Exception as e:
+                    notes.append("emodulus reference failed: %r" % (e,))
+                    continue
+            cand[sc] = _REF_MEMO[memo]
+        match = [sc for sc, v in cand.items() if same_value(v, val)]
+        taken = match[0] if len(match) == 1 else 7
+    else:
+        taken = 10 + code
+    case = dict(kind="emodulus-table", variant=var["name"], lut=lut,
+                medium=med, temperature=tmp, viscosity=visc, vmodel=vm,
+                temp_feature=has_temp, medium_value=MEDIA[medv],
+                temperature_value=cfg_value(K["emodulus temperature"],
+                                            var["tid"]),
+                viscosity_value=cfg_value(K["emodulus viscosity"],
+                                          var["vid"]))
+    fail = None
+    if medv in KNOWN_MEDIUM_IDS:
+        # documented precedence C > B > A
+        spec = 3 if (lut and med and tmp) else 2 if (lut and visc) else \
+            1 if (lut and med and has_temp) else 0
+        ok = (listed == (spec != 0)) and \
+            (taken == spec if spec else code != 0)
+        if not ok:
+            fid = None
+            if listed and code == 3 and visc and med:
+                fid = "C06-emodulus-available-unreadable"
+            fail = ("emodulus table: documented scenario %d, listed=%s, "
+                    "read code %d, inputs used %d" % (spec, listed, code,
+                                                      taken), fid)
+    return [int(listed), scen_sel, taken], case, fail, notes
+
+
 def emodulus_table(run):
     """all present/absent combinations of the emodulus ingredients on a
     fresh dataset, for typical and for falsy-but-legal values (0.0 degC,
     viscosity 0.0 / 2**-10, alias spellings, every LUT): availability,
     recipe chosen, inputs actually used"""
-    import numpy as np
-    import dclab
-    from dclab.rtdc_dataset.feat_anc_core import AncillaryFeature
+    import multiprocessing as mp
     rows = emod_rows()
+    ctx = mp.get_context("fork")
+    with ctx.Pool(min(common.NCPU, 12), initializer=_pool_init,
+                  initargs=(SIDE, common.REPO)) as pool:
+        results = pool.map(_table_row, rows, chunksize=8)
     impl = []
-    K = emod_keys()
-    for (lut, med, tmp, visc, vm, has_temp, var) in rows:
-        medv = var["medv"]
-        data = {"area_um": innate_data("area_um"),
-                "deform": innate_data("deform")}
-        if has_temp:
-            data["temp"] = innate_data("temp")
-        cfg = {K["pixel size"]: 1, K["flow rate"]: 1, K["channel width"]: 1}
-        if lut:
-            cfg[K["emodulus lut"]] = var["lut"]
-        if med:
-            cfg[K["emodulus medium"]] = medv
-        if tmp:
-            cfg[K["emodulus temperature"]] = var["tid"]
-        if visc:
-            cfg[K["emodulus viscosity"]] = var["vid"]
-        if vm:
-            cfg[K["emodulus viscosity model"]] = var["vmid"]
-        ds = dclab.new_dataset(data)
-        for k, v in cfg.items():
-            sec, key = ID_K[k]
-            ds.config[sec][key] = cfg_value(k, v)
-        listed = "emodulus" in ds
-        rec = AncillaryFeature.available_features(ds).get("emodulus")
-        scen_sel = {"case A": 1, "case B": 2, "case C": 3}.get(
-            getattr(rec, "data", None), 0)
-        code, val = try_read(ds, "emodulus")
-        taken = 0
-        if code == 0:
-            cand = {}
-            full = dict(cfg)
-            full.setdefault(K["emodulus lut"], var["lut"])
-            full.setdefault(K["emodulus viscosity"], var["vid"])
-            full.setdefault(K["emodulus temperature"], var["tid"])
-            scens = [2] if medv in OTHER_MEDIUM_IDS else [1, 2, 3]
-            full.setdefault(K["emodulus medium"], medv)
-            for sc in scens:
-                try:
-                    cand[sc] = emod_reference(
-                        sc, data["area_um"], data["deform"], full,
-                        innate_data("temp"))
-                except Exception as e:
-                    run.notes.append("emodulus reference failed: %r" % (e,))
-            match = [sc for sc, v in cand.items()
-                     if same_value(np.array(v), val)]
-            taken = match[0] if len(match) == 1 else 7
-        else:
-            taken = 10 + code
-        impl.append([int(listed), scen_sel, taken])
-        case = dict(kind="emodulus-table", variant=var["name"], lut=lut,
-                    medium=med, temperature=tmp, viscosity=visc, vmodel=vm,
-                    temp_feature=has_temp, medium_value=MEDIA[medv],
-                    temperature_value=cfg_value(K["emodulus temperature"],
-                                                var["tid"]),
-                    viscosity_value=cfg_value(K["emodulus viscosity"],
-                                              var["vid"]))
+    for codes, case, fail, notes in results:
+        impl.append(codes)
+        run.notes.extend(notes)
         run.record_case(case, True, sample=False)
         run.count("emodulus-table")
-        if medv in KNOWN_MEDIUM_IDS:
-            # documented precedence C > B > A
-            spec = 3 if (lut and med and tmp) else 2 if (lut and visc) else \
-                1 if (lut and med and has_temp) else 0
-            ok = (listed == (spec != 0)) and \
-                (taken == spec if spec else code != 0)
-            if not ok:
-                fid = None
-                if listed and code == 3 and visc and med:
-                    fid = "C06-emodulus-available-unreadable"
-                run.count("oracle:" + (fid or "UNMATCHED:emodulus-table"))
-                run.oracle_failure(
-                    case, "emodulus table: documented scenario %d, "
-                    "listed=%s, read code %d, inputs used %d" % (
-                        spec, listed, code, taken), fid)
+        if fail:
+            desc, fid = fail
+            run.count("oracle:" + (fid or "UNMATCHED:emodulus-table"))
+            run.oracle_failure(case, desc, fid)
     rendered = ["(%s, %d)" % (", ".join(
         "true" if x else "false" for x in r[:6]), r[6]["medv"])
         for r in rows]
